@@ -47,7 +47,9 @@ MODELS = {
     },
     "Remap": {
         "module": "mc/MC_Remap.tla", "spec": "MCSpec",
-        "constants": {"quick": {"MaxRecs": 2, "NNames": 4}, "thorough": {"MaxRecs": 2, "NNames": 5}},
+        # thorough: a fifth name with one-record converters (two records x five names x every partial map did not finish in
+        # 50 minutes); the two-record / four-name instance is part of every thorough run as the dumped instance
+        "constants": {"quick": {"MaxRecs": 2, "NNames": 4}, "thorough": {"MaxRecs": 1, "NNames": 5}},
         "always": ["Inv_Struct"], "properties": ["P_C10"],
     },
     # the converter world with its files (spec/System.tla)
